@@ -532,6 +532,133 @@ func TestRewriteShapes(t *testing.T) {
 	}
 }
 
+// battery 2: package functions taking the object, RLocker, element pointers handed to helpers, methods of nested structs
+const lockSrc3 = `package p
+
+import (
+	"sync"
+	"sync/atomic"
+)
+
+type lane struct{ ch chan int }
+
+type idSource struct {
+	seq   atomic.Uint64
+	plain int
+}
+
+func (src *idSource) next() uint64 { return src.seq.Add(1) }
+func (src *idSource) bump()        { src.plain++ }
+
+type W struct {
+	mu    sync.RWMutex
+	n     int
+	lanes []lane
+	ids   idSource
+}
+
+func setLocked(w *W, v int) { w.n = v }
+func getLocked(w *W) int    { return w.n }
+
+func (w *W) update(fn func(w *W)) {
+	w.mu.Lock()
+	defer w.mu.Unlock()
+	fn(w)
+}
+func view[R any](w *W, fn func(w *W) R) R {
+	w.mu.RLock()
+	defer w.mu.RUnlock()
+	return fn(w)
+}
+
+func (w *W) SetFn() {
+	w.mu.Lock()
+	defer w.mu.Unlock()
+	setLocked(w, 1)
+}
+func (w *W) SetFnNoLock()  { setLocked(w, 2) }
+func (w *W) SetViaUpdate() { w.update(func(w *W) { setLocked(w, 3) }) }
+func (w *W) GetViaView() int {
+	return view(w, func(w *W) int { return getLocked(w) })
+}
+func (w *W) GetRL() int {
+	rl := w.mu.RLocker()
+	rl.Lock()
+	defer rl.Unlock()
+	return w.n
+}
+func (w *W) SetUnderRLocker() {
+	rl := w.mu.RLocker()
+	rl.Lock()
+	defer rl.Unlock()
+	w.n = 4
+}
+
+func offer(ln *lane, v int) bool {
+	select {
+	case ln.ch <- v:
+		return true
+	default:
+		return false
+	}
+}
+func clobber(ln *lane) { *ln = lane{} }
+func (w *W) Offer(i int) bool { ln := &w.lanes[i]; return offer(ln, 1) }
+func (w *W) Peek(i int) int   { return len(w.lanes[i].ch) }
+func (w *W) Clobber(i int)    { ln := &w.lanes[i]; clobber(ln) }
+
+func (w *W) NextID() uint64 { return w.ids.next() }
+func (w *W) Bump()          { w.ids.bump() }
+`
+
+func TestBattery2Locks(t *testing.T) {
+	r := runLocksSrc(t, lockSrc3, "W")
+	pass := [][]string{
+		{"SetFn", "GetRL"},             // function taking the object inlined with the caller's lock; RLocker = shared hold
+		{"SetViaUpdate", "GetViaView"}, // literal with the object as parameter, generic helper function
+		{"Offer", "Peek"},              // element pointer handed to a helper that only sends on a channel inside
+		{"NextID"},                     // method of a nested struct: atomic sub-field
+	}
+	for _, sc := range pass {
+		if bad := disciplineFails(r, sc...); len(bad) != 0 {
+			t.Errorf("scope %v is race free but fails on %v", sc, bad)
+		}
+	}
+	fail := [][]string{
+		{"SetFnNoLock", "GetRL"},     // same helper called without the lock
+		{"SetUnderRLocker", "GetRL"}, // a write under the read side
+		{"Clobber", "Peek"},          // helper writes through the element pointer
+		{"Bump"},                     // nested struct method increments a plain sub-field
+	}
+	for _, sc := range fail {
+		if bad := disciplineFails(r, sc...); len(bad) == 0 {
+			t.Errorf("scope %v is racy but the discipline passes", sc)
+		}
+	}
+	has := func(fn, loc string, write, atomic bool, lock, mode string) bool {
+		for _, x := range r {
+			if x.fn == fn && x.loc == loc && x.write == write && x.atomic == atomic && x.held[lock] == mode {
+				return true
+			}
+		}
+		return false
+	}
+	if !has("SetFn", "n", true, false, "mu", "Ex") {
+		t.Errorf("setLocked(w, 1) under Lock must be a write of n held Ex")
+	}
+	if !has("GetRL", "n", false, false, "mu", "Sh") {
+		t.Errorf("read under RLocker().Lock() must be held Sh")
+	}
+	if !has("NextID", "ids.seq", true, true, "", "") {
+		t.Errorf("w.ids.next() must be an atomic write of ids.seq")
+	}
+	for _, x := range r {
+		if x.fn == "Offer" && x.loc == "lanes" && x.write {
+			t.Errorf("offer(ln, …) only sends on ln.ch: not a write of lanes")
+		}
+	}
+}
+
 // B6: the struct type may live in another file than the one named
 func TestTypeInOtherFile(t *testing.T) {
 	dir := t.TempDir()
@@ -773,6 +900,132 @@ func Done() error { p, _ := os.FindProcess(os.Getppid()); return p.Signal(os.Int
 		if got := runLaunch(t, strings.Replace(d3, m.old, m.new, 1)); !strings.Contains(got, m.want) {
 			t.Errorf("expected %s in %s", m.want, got)
 		}
+	}
+	// battery 2 (review_rf2_util 14-22)
+	// k=15: the steps as methods of a small struct; k=16/21: named waiter; k=17: parent() helper; k=18: constant capacity;
+	// k=19: one package-level signal variable for Notify and Done; k=22: the channel returned by a helper
+	b15 := `package daemon
+type launcher struct {
+	cmd       *exec.Cmd
+	interrupt chan os.Signal
+	finished  chan struct{}
+}
+const backlog = 1
+var handshake os.Signal = os.Interrupt
+func newLauncher(name string) *launcher {
+	return &launcher{interrupt: make(chan os.Signal, backlog), finished: make(chan struct{})}
+}
+func (l *launcher) run() {
+	l.listen()
+	defer l.unlisten()
+	if err := l.start(); err != nil {
+		os.Stderr.Write([]byte(err.Error()))
+		return
+	}
+	l.reportPid()
+	verifPause("launch.afterStart")
+	go l.watch()
+	l.wait()
+}
+func (l *launcher) listen()   { signal.Notify(l.interrupt, handshake) }
+func (l *launcher) unlisten() { signal.Stop(l.interrupt) }
+func (l *launcher) start() error {
+	l.cmd = exec.Command(os.Args[0])
+	return l.cmd.Start()
+}
+func (l *launcher) reportPid() { binary.Write(os.Stdout, binary.LittleEndian, uint32(l.cmd.Process.Pid)) }
+func (l *launcher) watch() {
+	defer close(l.finished)
+	l.cmd.Wait()
+}
+func (l *launcher) wait() {
+	select {
+	case <-l.finished:
+	case <-l.interrupt:
+	}
+}
+func launch(name string) { newLauncher(name).run() }
+func parent() (*os.Process, error) { return os.FindProcess(os.Getppid()) }
+func Done() error {
+	p, err := parent()
+	if err != nil {
+		return err
+	}
+	return p.Signal(handshake)
+}
+`
+	if got := runLaunch(t, b15); got != "[ANotify; AStart; AWritePid; ASpawnWait; ASelect]" {
+		t.Errorf("methods of a launcher struct: %s", got)
+	}
+	// ill-ordered counterpart: listen() after start()
+	ill := strings.Replace(strings.Replace(b15, "\tl.listen()\n\tdefer l.unlisten()\n", "", 1), "\tl.reportPid()\n", "\tl.listen()\n\tdefer l.unlisten()\n\tl.reportPid()\n", 1)
+	if got := runLaunch(t, ill); got != "[AStart; ANotify; AWritePid; ASpawnWait; ASelect]" {
+		t.Errorf("listen after start must be extracted in that order: %s", got)
+	}
+	for _, m := range []struct{ old, new, want string }{
+		{"const backlog = 1", "const backlog = 0", "ANotifyUnbuffered"},
+		{"p.Signal(handshake)", "p.Signal(other)", "AUnknown"},
+		{"\tl.cmd.Wait()\n", "", `AUnknown "go l.watch`},
+		{"\tcase <-l.interrupt:\n", "\tcase <-l.interrupt:\n\tcase <-l.timer.C:\n", `AUnknown "select case`},
+	} {
+		if got := runLaunch(t, strings.Replace(b15, m.old, m.new, 1)); !strings.Contains(got, m.want) {
+			t.Errorf("expected %s in %s", m.want, got)
+		}
+	}
+	b16 := `package daemon
+func subscribe() chan os.Signal {
+	ch := make(chan os.Signal, 1)
+	signal.Notify(ch, os.Interrupt)
+	return ch
+}
+func announce(pid int) {
+	var rec [4]byte
+	binary.LittleEndian.PutUint32(rec[:], uint32(pid))
+	os.Stdout.Write(rec[:])
+}
+func waitDaemon(cmd *exec.Cmd, finished chan<- struct{}) {
+	if err := cmd.Wait(); err != nil {
+		fmt.Fprint(os.Stderr, "daemon: "+err.Error())
+	}
+	close(finished)
+}
+func launch(name string) {
+	interrupt := subscribe()
+	defer signal.Stop(interrupt)
+	cmd := exec.Command(os.Args[0])
+	if err := cmd.Start(); err != nil {
+		return
+	}
+	announce(cmd.Process.Pid)
+	verifPause("launch.afterStart")
+	finished := make(chan struct{})
+	go func() { waitDaemon(cmd, finished) }()
+	select {
+	case <-interrupt:
+	case <-finished:
+	}
+}
+func Done() error { p, _ := os.FindProcess(os.Getppid()); return p.Signal(os.Interrupt) }
+`
+	if got := runLaunch(t, b16); got != "[ANotify; AStart; AWritePid; ASpawnWait; ASelect]" {
+		t.Errorf("returned channel + named waiter: %s", got)
+	}
+	if got := runLaunch(t, strings.Replace(b16, "go func() { waitDaemon(cmd, finished) }()", "go waitDaemon(cmd, finished)", 1)); got != "[ANotify; AStart; AWritePid; ASpawnWait; ASelect]" {
+		t.Errorf("go waitDaemon(cmd, finished): %s", got)
+	}
+	if got := runLaunch(t, strings.Replace(b16, "\tcase <-interrupt:\n", "\tcase <-other:\n", 1)); !strings.Contains(got, "AUnknown") {
+		t.Errorf("select on another channel than the one subscribe() returned: %s", got)
+	}
+	// k=14: signal.NotifyContext + <-ctx.Done()
+	b14 := strings.Replace(strings.Replace(strings.Replace(launchFixed,
+		"\tinterrupt := make(chan os.Signal, 1)\n\tsignal.Notify(interrupt, os.Interrupt)\n\tdefer signal.Stop(interrupt)\n",
+		"\tctx, stop := signal.NotifyContext(context.Background(), os.Interrupt)\n\tdefer stop()\n", 1),
+		"\tcase <-interrupt:\n", "\tcase <-ctx.Done():\n", 1), "XX", "", 1)
+	if got := runLaunch(t, b14); got != "[ANotify; AStart; AWritePid; ASpawnWait; ASelect]" {
+		t.Errorf("NotifyContext: %s", got)
+	}
+	if got := runLaunch(t, strings.Replace(b14, "context.Background()", "timeoutCtx", 1)); !strings.Contains(got, "AUnknown") {
+		t.Errorf("NotifyContext on a context that may end by itself must be unknown: %s", got)
 	}
 	extra := strings.Replace(launchFixed, "\tverifPause(", "\tos.Exit(0)\n\tverifPause(", 1)
 	if got := runLaunch(t, extra); !strings.Contains(got, `AUnknown "call os.Exit`) {
